@@ -350,6 +350,171 @@ def check_ctor(recipe) -> list[Fail]:
     return out
 
 
+def check_held(recipe) -> list[Fail]:
+    """While ANOTHER process is inside a session (harness-owned gate), this process asks for sessions with short, zero and
+    integer-zero timeouts: a writer is excluded from everything, readers exclude writers - the refusal is a TimeoutError, never an
+    entered session.  After the gate opens everything proceeds and nothing is lost."""
+    fails: list[Fail] = []
+    d = _dir("k")
+    path = os.path.join(d, "lib.ukv")
+    at_file, gate_file = os.path.join(d, "at"), os.path.join(d, "gate")
+    hn = "H1"
+    local = None
+    try:
+        local = cc.make_handle(path, False, [-1, 0, 64, 10**6][recipe["abuf"]])
+        res = cc.run_session(local, "write1", ["base"], [b"B" * 20])
+        if res["exc"]:
+            raise HarnessError(f"setup session failed: {res}")
+        h = helper(hn)
+        if h.call({"op": "new", "path": path, "handles": {hn: {"ro": False, "buf": -1}}}) is None:
+            raise HarnessError("helper stalled while constructing a handle")
+        held_mode = recipe["held"]
+        h.send({"op": "session_hold", "h": hn, "mode": held_mode, "key": "heldkey", "val": (b"H" * 33).hex(), "at_file": at_file, "gate_file": gate_file})
+        t0 = time.time()
+        while not os.path.exists(at_file) and time.time() - t0 < 30:
+            time.sleep(0.01)
+        if not os.path.exists(at_file):
+            raise HarnessError("helper never entered its session")
+        entered = []
+        for mode in ("w", "r"):
+            if held_mode == "r" and mode == "r":
+                continue     # readers share
+            for tmo in recipe["timeouts"]:
+                tv = [0, 0.0, 0.05, 0.3][tmo]
+                try:
+                    cm = local.writing(timeout=tv) if mode == "w" else local.reading(timeout=tv)
+                    with cm:
+                        entered.append((mode, tv))
+                        if mode == "w":
+                            local[f"intruder{len(entered)}"] = b"I"
+                except TimeoutError:
+                    pass
+        if entered:
+            fails.append(Fail(f"session-entered-while-another-process-holds-a-{'writing' if held_mode == 'w' else 'reading'}-session", f"(mode, timeout) entered: {entered}"))
+        open(gate_file, "w").close()
+        if h.recv(timeout=90) is None:
+            fails.append(Fail("held:holder-never-finished", ""))
+            return fails
+        if not fails:
+            res = cc.run_session(local, "write1", ["after"], [b"A" * 9])
+            if res["exc"] or not res["acquired"]:
+                fails.append(Fail("held:session-after-release-fails", f"{res}"))
+            res = cc.run_session(local, "read_all", [], [])
+            want = {"base": (b"B" * 20).hex(), "after": (b"A" * 9).hex()}
+            if held_mode == "w":
+                want["heldkey"] = (b"H" * 33).hex()
+            if res.get("seen") != want:
+                fails.append(Fail("held:final-contents-wrong", f"{sorted((res.get('seen') or {}).keys())} vs {sorted(want)}"))
+    finally:
+        if local is not None:
+            try:
+                uf = getattr(local._backend, "_ukvfile", None)
+                if uf is not None and not uf.closed:
+                    uf.close()
+            except Exception:
+                pass
+        if not os.path.exists(gate_file):
+            try:
+                open(gate_file, "w").close()
+            except OSError:
+                pass
+        if fails and hn in _H:
+            _H[hn].kill()
+        shutil.rmtree(d, ignore_errors=True)
+        try:
+            from molli._aux.lock import rwlock
+            os.unlink(str(rwlock(path)))
+        except OSError:
+            pass
+    return fails
+
+
+def check_pickled(recipe) -> list[Fail]:
+    """A library handle that has already been through sessions is pickled and unpickled (what joblib / multiprocessing do with it):
+    the copy is a handle like any other - it sees every record, refuses duplicates, appends, and nothing is lost."""
+    import pickle
+    from molli.storage import Collection, UkvCollectionBackend
+    import atexit
+
+    fails: list[Fail] = []
+    d = _dir("p")
+    path = os.path.join(d, "lib.ukv")
+    try:
+        a = cc.make_handle(path, False, -1)
+        must = {}
+        for i in range(recipe["n_before"]):
+            keys, vals = [f"p{i}a", f"p{i}b"], _vals(i)
+            res = cc.run_session(a, "write2", keys, vals)
+            if res["exc"]:
+                raise HarnessError(f"setup session failed: {res}")
+            must.update(dict(zip(keys, vals)))
+        q = Collection(path, UkvCollectionBackend, readonly=False, bufsize=[-1, 0, 64, 10**6][recipe["buf"]])
+        atexit.unregister(q._backend.flush)
+        for _ in range(recipe["n_used"]):
+            with (q.reading(timeout=cc.TIMEOUT) if recipe["used_as"] == "r" else q.writing(timeout=cc.TIMEOUT)):
+                sorted(q.keys())
+        try:
+            p_ = pickle.loads(pickle.dumps(q))
+            atexit.unregister(p_._backend.flush)
+        except Exception as e:
+            return [Fail(f"pickled:handle-not-picklable:{type(e).__name__}", repr(e)[:200])]
+        if recipe["other_writes_between"]:
+            res = cc.run_session(a, "write1", ["between"], [b"W" * 11])
+            must["between"] = b"W" * 11
+        try:
+            with p_.reading(timeout=cc.TIMEOUT):
+                seen = {k: p_[k] for k in p_.keys()}
+            if seen != must:
+                fails.append(Fail("pickled:unpickled-handle-does-not-see-the-records", f"sees {sorted(seen)}, library holds {sorted(must)} (handle had {recipe['n_used']} {recipe['used_as']}-session(s) before pickling)"))
+            dup_refused = False
+            with p_.writing(timeout=cc.TIMEOUT):
+                try:
+                    p_[next(iter(must))] = b"DUPLICATE"
+                except Exception:
+                    dup_refused = True
+                p_["from_copy"] = b"C" * 7
+            must["from_copy"] = b"C" * 7
+            if not dup_refused:
+                fails.append(Fail("pickled:unpickled-handle-accepts-a-duplicate-key", ""))
+        except Exception as e:
+            fails.append(Fail(f"pickled:session-on-unpickled-handle-raises:{type(e).__name__}", repr(e)[:200]))
+        res = cc.run_session(a, "read_all", [], [])
+        if res.get("seen") != {k: v.hex() for k, v in must.items()} and not fails:
+            fails.append(Fail("pickled:records-lost-or-altered-afterwards", f"{sorted((res.get('seen') or {}))} vs {sorted(must)}"))
+    finally:
+        shutil.rmtree(d, ignore_errors=True)
+        try:
+            from molli._aux.lock import rwlock
+            os.unlink(str(rwlock(path)))
+        except OSError:
+            pass
+    return fails
+
+
+def enum_pickled(tier, shard, nshards):
+    i = 0
+    for n_before in (1, 2):
+        for buf in range(4):
+            for n_used in (0, 1, 2):
+                for used_as in ("r", "w"):
+                    for between in (False, True):
+                        if i % nshards == shard:
+                            yield {"n_before": n_before, "buf": buf, "n_used": n_used, "used_as": used_as, "other_writes_between": between}
+                        i += 1
+
+
+def enum_held(tier, shard, nshards):
+    i = 0
+    for held in ("w", "r"):
+        for abuf in range(4):
+            for timeouts in ([0], [1], [2], [0, 1, 2], [3]):
+                if tier == "quick" and timeouts == [3] and abuf:
+                    continue
+                if i % nshards == shard:
+                    yield {"held": held, "abuf": abuf, "timeouts": timeouts}
+                i += 1
+
+
 def enum_ctor(tier, shard, nshards):
     i = 0
     for ro in (0,):      # (a read-only handle on a library that does not exist is refused outright: FileNotFoundError)
@@ -513,6 +678,15 @@ LEGS = [
         "ctor", check_ctor, lambda r: (True, [f"sessions_before_gate={r['nsess']}"]), enumerate=enum_ctor, exhaustive=True, shards={"quick": 8, "thorough": 8},
         rule="harness-owned interleaving of a handle CONSTRUCTOR with completed sessions: a helper process starts constructing its handle on a library that does not exist yet and is held right before its first lock acquisition; "
              "this process creates the library and completes 1-2 writing sessions; the gate opens; every record must survive and both handles must read. All 4x4 buffer sizes x 1-2 sessions x 1-2 puts combinations",
+    ),
+    Leg(
+        "pickled", check_pickled, lambda r: (r["n_used"] > 0, [f"sessions_before_pickling={r['n_used']}{r['used_as']}", f"other_handle_writes_between={r['other_writes_between']}"]), enumerate=enum_pickled, exhaustive=True, shards={"quick": 8, "thorough": 8},
+        rule="a Collection handle that went through 0-2 reading / writing sessions is pickled and unpickled; the copy must see every record (also one written by another handle in between), refuse a duplicate, append; all 96 combinations",
+    ),
+    Leg(
+        "held", check_held, lambda r: (True, [f"holder={'writer' if r['held'] == 'w' else 'reader'}", "timeouts=" + ",".join(str([0, 0.0, 0.05, 0.3][t]) for t in r["timeouts"])]), enumerate=enum_held, exhaustive=True, shards={"quick": 8, "thorough": 8},
+        rule="harness-owned overlap: a helper process sits inside a writing (or reading) session while this process asks for sessions with timeout 0, 0.0, 0.05, 0.3: every request that the holder excludes must end in TimeoutError, never inside the session; "
+             "after the gate opens a session proceeds and the contents are complete",
     ),
     Leg(
         "real", check_real, classify_real, strategy=strat_real,
